@@ -71,8 +71,15 @@ def run_case(ctx, i, rng):
     pol = runner.gen_policy(rng, hostile=0.1)
     pol['dt'] = rng.choice([1.0, 2.0, 5.0, 10.0])
     pol['speed'] = rng.choice([0.2, 0.3, 0.6])
+    # some jobs fail: a failed clock-expire task whose success is required
+    # is retained (finished, incomplete) while its expiry time passes
+    plans = {}
+    for p in gt['points']:
+        for n in gt['names']:
+            if rng.random() < 0.2:
+                plans[f'{p}/{n}'] = {'tries': [{'result': 'failed'}]}
     case = {'seed': rng.randrange(1 << 30), 'gt': gt, 'messages': {},
-            'plans': {}, 'policy': pol, 'plan_class': 'all-succeed'}
+            'plans': plans, 'policy': pol, 'plan_class': 'some-fail'}
     sc = script(rng, gt)
     results = runner.run_case(ctx, f'c{i}', case,
                               [{'name': 'run', 'script': sc}], MONS, PID)
